@@ -438,3 +438,35 @@ func DeadAddr() (string, error) {
 	}
 	return "", fmt.Errorf("no refusing loopback port found")
 }
+
+// DownConn stands for a downstream connection of the proxy (binding pool): it has an id, takes event
+// listeners and delivers a close event to them; nothing else of api.Connection is used by the pool.
+type DownConn struct {
+	api.Connection
+	Num    uint64
+	mu     sync.Mutex
+	ls     []api.ConnectionEventListener
+	closed bool
+}
+
+func (d *DownConn) ID() uint64 { return d.Num }
+func (d *DownConn) AddConnectionEventListener(l api.ConnectionEventListener) {
+	d.mu.Lock()
+	d.ls = append(d.ls, l)
+	d.mu.Unlock()
+}
+func (d *DownConn) Close(cc api.ConnectionCloseType, ev api.ConnectionEvent) error {
+	d.mu.Lock()
+	if d.closed {
+		d.mu.Unlock()
+		return nil
+	}
+	d.closed = true
+	ls := append([]api.ConnectionEventListener{}, d.ls...)
+	d.mu.Unlock()
+	for _, l := range ls {
+		l.OnEvent(ev)
+	}
+	return nil
+}
+func (d *DownConn) Closed() bool { d.mu.Lock(); defer d.mu.Unlock(); return d.closed }
